@@ -305,7 +305,7 @@ func mutate(r *rng, text []byte) []byte {
 	}
 	var b strings.Builder
 	repl := []string{"0", "1", "-1", "1.5", "4294967296", "0x1F", "1e3", "x", "M", "m3", "m3M", `"s"`, `""`, ";", ":", ",", "|", "@", "+", "-", "(", ")",
-		"[", "]", "BO_", "SG_", "BU_", "EV_", "INT", "STRING", "1-2", "Vector__XXX", "\x00", "\t", "\n", "#"}
+		"[", "]", "BO_", "SG_", "BU_", "EV_", "INT", "STRING", "1-2", "Vector__XXX", "\x00", "\t", "\n", "#", "1e999", "-1e309", "1e-999", "18446744073709551616", "-9223372036854775809"}
 	op := r.n(4)
 	for j := 0; j < n; j++ {
 		switch {
@@ -401,9 +401,29 @@ func run(seed uint64, tier, outDir string) error {
 		"BU_:\nEV_ e : 1 [-1|1] \"u\" 0.5 7 DUMMY_NODE_VECTOR8003 A,B;\nENVVAR_DATA_ e : 4 ;\nSGTYPE_ t : 8@1 - (1,0) [0|1] \"u\" 0 , vt;\nSGTYPE_ 1 s : t;\n",
 		"BU_:\nCM_ \"g\";CM_ BU_ n \"x\";CM_ BO_ 1 \"y\";CM_ SG_ 1 s \"multi\nline\";CM_ EV_ e \"z\";\nINT HEX SG_ FLOAT\n",
 		"VERSION \"a\" NS_ : CM_ FILTER 5 \"x\" ; BS_: BU_: a\x00 trailing garbage",
+		"BU_: A\nBA_DEF_ BU_ \"i\" INT 0 10;\nBA_DEF_ \"s\" STRING;\nBA_DEF_ \"f\" FLOAT 0 10;\nBA_DEF_ \"h\" HEX 0 255;\nBA_DEF_DEF_ \"i\" 7;\nBA_DEF_DEF_ \"s\" \"none\";\nBA_DEF_DEF_ \"f\" 1.5;\nBA_DEF_DEF_ \"h\" 0x1F;\n" +
+			"BA_ \"i\" BU_ A 7;\nBA_ \"i\" BU_ A 8;\nBA_ \"s\" \"none\";\nBA_ \"f\" 1.5;\nBA_ \"h\" 0x1F;\nBA_ \"i\" 7;\nBA_ \"s\" \"some\";\n",
 	}
 	st.outsideStream()
 	st.strFieldsStream()
+	st.redundantStream()
+	// a literal that does not fit a double (strconv: ErrRange, +-Inf or 0 returned along with it), in every position
+	// where the grammar has a double: the parser must refuse each (the writer has no text for an infinity) - this
+	// used to be met only when a mutation happened to glue digits together (seeded C08-r3m2 was caught by luck)
+	for _, lit := range []string{"1e999", "-1e999", "1e309", "1.8e308", "-1.8e308", "1e-999", "2e-324", "179769313486231580793728971405303415079934132710037826936173778980444968292764750946649017977587207096330286416692887910946555547851940402630657488671505820681908902000708383676273854845817711531764475730270069855571366959622842914819860834936475292719074168444365510704342711559699508093042880177904174497792"} {
+		for _, format := range []string{
+			"BU_: A\nBO_ 1 msg : 8 A\n SG_ s : 0|8@1+ (%s,0) [0|1] \"\" A\n", "BU_: A\nBO_ 1 msg : 8 A\n SG_ s : 0|8@1+ (1,%s) [0|1] \"\" A\n",
+			"BU_: A\nBO_ 1 msg : 8 A\n SG_ s : 0|8@1+ (1,0) [%s|1] \"\" A\n", "BU_: A\nBO_ 1 msg : 8 A\n SG_ s : 0|8@1+ (1,0) [0|%s] \"\" A\n",
+			"BU_: A\nEV_ e : 1 [%s|1] \"u\" 0 7 DUMMY_NODE_VECTOR0 A;\n", "BU_: A\nEV_ e : 1 [0|%s] \"u\" 0 7 DUMMY_NODE_VECTOR0 A;\n",
+			"BU_: A\nEV_ e : 1 [0|1] \"u\" %s 7 DUMMY_NODE_VECTOR0 A;\n", "BU_: A\nSGTYPE_ t : 8@1 + (%s,0) [0|1] \"u\" 0 , vt;\n",
+			"BU_: A\nSGTYPE_ t : 8@1 + (1,0) [0|%s] \"u\" 0 , vt;\n", "BU_: A\nSGTYPE_ t : 8@1 + (1,0) [0|1] \"u\" %s , vt;\n",
+			"BU_: A\nBA_DEF_ \"f\" FLOAT %s 1;\n", "BU_: A\nBA_DEF_ \"f\" FLOAT 0 %s;\n", "BU_: A\nBA_DEF_DEF_ \"f\" %s;\n", "BU_: A\nBA_ \"f\" %s;\n", "BU_: A\nBA_ \"f\" BU_ A %s;\n",
+		} {
+			t := []byte(fmt.Sprintf(format, lit))
+			st.checkText("overflow", t, false, true)
+			st.checkText("overflow", t, true, false)
+		}
+	}
 	for _, h := range hand {
 		seeds = append(seeds, []byte(h))
 		st.checkText("hand", []byte(h), false, true)
